@@ -784,12 +784,9 @@ func main() {
 			cfgs = append(cfgs, copyConfig(two[r.below(len(two))], two[r.below(len(two))], two[r.below(len(two))]))
 		}
 	}
-	nEx := 0
 	for ci, c := range cfgs {
 		before := stats["schedules_exhaustive"]
-		n, complete, finals := exhaustiveSampled(c, maxPer, traceEvery, ci)
-		_ = n
-		nEx++
+		_, complete, finals := exhaustiveSampled(c, maxPer, traceEvery, ci)
 		if complete {
 			stats["configs_all_interleavings"]++
 			var fs []string
